@@ -323,6 +323,17 @@ def run(shard, rec, tier, seed):
             except Exception:
                 pass
         rec.count("out-of-domain-calls-before-sweep", len(junk) + 8)
+        # arguments passed by name (a memo keyed on positional arguments only would answer all of these alike)
+        for n in (0, 1, 252, 253, 64008, 64009, 70000, B3, B4 - 1, 12345678):
+            try:
+                e = ns.numbers.encode_number(number=n)
+                d = ns.numbers.decode_number(encoded_number=e)
+            except Exception as ex:
+                rec.violation("encode-raises", "encode_number(number=%d) / decode_number(encoded_number=...) raised %r" % (n, ex), {"n": n})
+                continue
+            if bytes(e) != ref.encode(n) or d != n:
+                rec.violation("differential-encode", "by keyword: encode_number(number=%d) = %s (reference %s), decoded %r" % (n, bytes(e).hex(), ref.encode(n).hex(), d), {"n": n})
+        rec.count("keyword-calls", 20)
         for n in list(range(0, shard["hi"])) + [B3 - 1, B3, B3 + 1, B4 - 1, B4 - B, 12345678, 2048576040]:
             mon.check_n(n)
         cnt = shard["hi"] + 7
